@@ -63,10 +63,30 @@ func emptyTokenGuard(c *ctx) string {
 	return "true"
 }
 
+// varTypeGuard reports whether readVarDef refuses a variable definition without a type (`vd.Type == nil`).
+func varTypeGuard(c *ctx) string {
+	fd := c.funcs["exeParser.readVarDef"]
+	if fd == nil {
+		return unknown("readVarDef", "exeparser.go")
+	}
+	found := false
+	ast.Inspect(fd.Body, func(n ast.Node) bool {
+		if is, ok := n.(*ast.IfStmt); ok && strings.Contains(c.src(is.Cond), "vd.Type == nil") {
+			found = true
+		}
+		return true
+	})
+	if found {
+		return "false"
+	}
+	return "true"
+}
+
 func genParse(c *ctx) string {
 	var b strings.Builder
 	b.WriteString("namespace Ggql.Gen\n")
 	fmt.Fprintf(&b, "def sdlEmptyTokenSpins : Bool := %s\n", emptyTokenGuard(c))
+	fmt.Fprintf(&b, "def exeVarTypeOptional : Bool := %s\n", varTypeGuard(c))
 	type ent struct{ name, h string }
 	var ents []ent
 	for name, fd := range c.funcs {
